@@ -194,11 +194,20 @@ func Quote(s []uint16) []uint16 {
 	return append(out, '"')
 }
 
+// MaxStringifyDepth: a structure that toJSON / the replacer function make deeper
+// at every visit never ends by the letter of 15.12.3; implementations run out of
+// stack, which ES5 engines report as a RangeError. The model does so at a depth
+// no finite case of the check comes near.
+var MaxStringifyDepth = 2000
+
 func (c *sctx) enter(o *Obj) {
 	for _, s := range c.stack {
 		if s == o {
 			throw("TypeError", "cyclical structure")
 		}
+	}
+	if len(c.stack) >= MaxStringifyDepth {
+		throw("RangeError", "JO/JA nested deeper than any finite value (structure grown by toJSON / the replacer)")
 	}
 	c.stack = append(c.stack, o)
 }
